@@ -377,3 +377,48 @@ v("c05-formatter-key-typo", "C05", SM, "    \"is_null\": _db_is_null_expr,", "  
 v("c05-twin-case-parens", "C05", SM,
   "    return \"CASE\" + \" WHEN \" + if_expr + \" THEN \" + x_expr + \" ELSE \" + y_expr + \" END\"",
   "    return \"CASE WHEN (\" + if_expr + \") THEN \" + x_expr + \" ELSE \" + y_expr + \" END\"", expect="silent")
+
+# ---------------------------------------------------------------- C16
+v("c16-right-rewrite-keys-unswapped", "C16", "SQLite.py",
+  "        join_node_copy_right.on_a = join_node.on_b\n        join_node_copy_right.on_b = join_node.on_a\n", "")
+v("c16-sql-coalesce-prefers-right", "C16", SM,
+  "        if left_is_first:\n            terms = self._coalesce_terms(\n                sub_view_name_first=left_qqn,\n                sub_view_name_second=right_qqn,",
+  "        if left_is_first:\n            terms = self._coalesce_terms(\n                sub_view_name_first=right_qqn,\n                sub_view_name_second=left_qqn,")
+v("c16-on-clause-crossed", "C16", SM,
+  "                    left_qqn\n                    + \".\"\n                    + self.quote_identifier(c_a)\n                    + \" = \"\n                    + right_qqn\n                    + \".\"\n                    + self.quote_identifier(c_b)",
+  "                    left_qqn\n                    + \".\"\n                    + self.quote_identifier(c_b)\n                    + \" = \"\n                    + right_qqn\n                    + \".\"\n                    + self.quote_identifier(c_a)")
+v("c16-pandas-full-maps-left", "C16", PB, "            \"full\": \"outer\",", "            \"full\": \"left\",")
+v("c16-pandas-fill-right-from-left", "C16", PB,
+  "                is_null = res[c].isnull()\n                res.loc[is_null, c] = res.loc[is_null, c + \"_tmp_right_col\"]",
+  "                is_null = res[c + \"_tmp_right_col\"].isnull()\n                res.loc[~is_null, c] = res.loc[~is_null, c + \"_tmp_right_col\"]")
+v("c16-pandas-twin-cleanup-on_a-only", "C16", PB,
+  "        merged_key_cols = {c_a for c_a, c_b in zip(op.on_a, op.on_b) if c_a == c_b}", "        merged_key_cols = set(op.on_a)")
+v("c16-polars-prefers-right", "C16", "polars_model.py",
+  "                        pl.when(pl.col(c).is_null())\n                        .then(pl.col(c + \"_da_right_tmp\"))\n                        .otherwise(pl.col(c))",
+  "                        pl.when(pl.col(c + \"_da_right_tmp\").is_null())\n                        .then(pl.col(c))\n                        .otherwise(pl.col(c + \"_da_right_tmp\"))")
+v("c16-sqlite-full-not-rewritten", "C16", "SQLite.py",
+  "        if join_node.jointype == \"FULL\":\n            return self._emit_full_join_as_complex(", "        if join_node.jointype == \"FULL_\":\n            return self._emit_full_join_as_complex(")
+v("c16-twin-tuple-swap", "C16", "SQLite.py",
+  "        join_node_copy_right.on_a = join_node.on_b\n        join_node_copy_right.on_b = join_node.on_a\n",
+  "        join_node_copy_right.on_a, join_node_copy_right.on_b = (join_node.on_b, join_node.on_a)\n", expect="silent")
+# ---------------------------------------------------------------- C01
+v("c01-pandas-dispatch-missing-rename", "C01", PB, "            \"RenameColumnsNode\": self._rename_columns_step,\n", "")
+v("c01-sql-generator-ignores-using", "C01", SM,
+  "        subsql = order_node.sources[0].to_near_sql_implementation_(\n            db_model=self, using=set(subusing), temp_id_source=temp_id_source",
+  "        subsql = order_node.sources[0].to_near_sql_implementation_(\n            db_model=self, using=None, temp_id_source=temp_id_source")
+v("c01-window-vars-without-partition", "C01", SM, "                window_vars.update(extend_node.partition_by)\n", "")
+v("c01-sqlite-drops-ceiling-and-ceil", "C01", "SQLite.py", "            \"tanh\": functools.partial(_wrap_numpy_fn, numpy.tanh),\n", "            \"tanh_\": functools.partial(_wrap_numpy_fn, numpy.tanh),\n", expect="silent")
+v("c01-sqlite-unregisters-tanh-math-only", "C01", "SQLite.py",
+  "            \"tanh\": functools.partial(_wrap_scalar_fn, math.tanh),\n", "", expect="silent")
+v("c01-sqlite-unregisters-sqrt", "C01", "SQLite.py",
+  "            \"sqrt\": functools.partial(_wrap_scalar_fn, math.sqrt),\n", "            \"sqrt_\": functools.partial(_wrap_scalar_fn, math.sqrt),\n", expect="silent")
+# ---------------------------------------------------------------- C02
+v("c02-log-base10", "C02", "PostgreSQL.py", "        op_replacements[\"log\"] = \"LN\"\n", "")
+v("c02-var-pop", "C02", "PostgreSQL.py", "        op_replacements[\"var\"] = \"VAR_SAMP\"", "        op_replacements[\"var\"] = \"VAR_POP\"")
+v("c02-as-int64-bigquery-type", "C02", "PostgreSQL.py", "    \"as_int64\": _postgresql_as_int64,\n", "")
+v("c02-uniform-rand", "C02", "PostgreSQL.py", "        op_replacements[\"_uniform\"] = \"RANDOM\"\n", "")
+v("c02-cte-key-none-as-text", "C02", "near_sql.py",
+  "            ops_key = self.near_sql.ops_key  # None: step has no reliable identity, never share it\n            if ops_key is not None:\n                ops_key = f\"{ops_key}\"\n                if self.columns is not None:\n                    ops_key = f\"{ops_key}_{list(self.columns)}\"\n",
+  "            ops_key = f\"{self.near_sql.ops_key}\"\n            if self.columns is not None:\n                ops_key = f\"{ops_key}_{list(self.columns)}\"\n")
+v("c02-merge-keeps-old-ops_key", "C02", SM,
+  "                # the merged step no longer computes what its original key describes\n                subsql.ops_key = f\"extend({extend_node}, {subsql.terms.keys()})\"\n", "")
